@@ -21,3 +21,72 @@ def FinalizeVerdict.name : FinalizeVerdict → String
   | .invalidBufferSize => "InvalidBufferSize"
 
 end Stretto
+
+namespace Stretto
+
+/-- the plain fields of `CacheBuilderCore` (the typed slots — key builder, coster, validator, callback,
+hasher — are represented by the identifier of what was plugged in; 0 = the default) -/
+structure BuilderCore where
+  numCounters : Nat
+  maxCost : Int
+  bufferItems : Nat := 64
+  insertBufferSize : Nat := 32768
+  metrics : Bool := false
+  ignoreInternalCost : Bool := false
+  cleanupNs : Nat := 2000000000
+  keyBuilder : Nat := 0
+  coster : Nat := 0
+  validator : Nat := 0
+  callback : Nat := 0
+  hasher : Nat := 0
+deriving Repr, BEq, DecidableEq
+
+/-- the builder calls; the last five rebuild the whole struct in the code (they change a type parameter)
+and must carry every other field across -/
+inductive Setter
+  | numCounters (n : Nat) | maxCost (m : Int) | bufferItems (n : Nat) | bufferSize (n : Nat)
+  | metrics (b : Bool) | ignoreInternal (b : Bool) | cleanup (ns : Nat)
+  | keyBuilder (id : Nat) | coster (id : Nat) | validator (id : Nat) | callback (id : Nat) | hasher (id : Nat)
+deriving Repr, BEq, DecidableEq
+
+def BuilderCore.set (b : BuilderCore) : Setter → BuilderCore
+  | .numCounters n => { b with numCounters := n }
+  | .maxCost m => { b with maxCost := m }
+  | .bufferItems n => { b with bufferItems := n }
+  | .bufferSize n => { b with insertBufferSize := n }
+  | .metrics v => { b with metrics := v }
+  | .ignoreInternal v => { b with ignoreInternalCost := v }
+  | .cleanup ns => { b with cleanupNs := ns }
+  | .keyBuilder id => { b with keyBuilder := id }
+  | .coster id => { b with coster := id }
+  | .validator id => { b with validator := id }
+  | .callback id => { b with callback := id }
+  | .hasher id => { b with hasher := id }
+
+/-- what the components of the built cache are given -/
+structure Effective where
+  /-- aging window of the TinyLFU / width basis of the sketch -/
+  numCounters : Nat
+  maxCost : Int
+  /-- capacity of the get ring -/
+  ringCap : Nat
+  /-- capacity of the insert buffer -/
+  bufCap : Nat
+  metricsOn : Bool
+  ignoreInternalCost : Bool
+  cleanupNs : Nat
+deriving Repr, BEq, DecidableEq
+
+/-- `finalize`: the three checks, then every field goes to the component that uses it -/
+def BuilderCore.finalize (b : BuilderCore) : Except FinalizeVerdict Effective :=
+  match finalizeCheck b.numCounters b.maxCost b.insertBufferSize with
+  | .ok => .ok { numCounters := b.numCounters, maxCost := b.maxCost, ringCap := b.bufferItems,
+                 bufCap := b.insertBufferSize, metricsOn := b.metrics,
+                 ignoreInternalCost := b.ignoreInternalCost, cleanupNs := b.cleanupNs }
+  | v => .error v
+
+/-- a whole chain of builder calls -/
+def buildWith (numCounters : Nat) (maxCost : Int) (calls : List Setter) : Except FinalizeVerdict Effective :=
+  (calls.foldl BuilderCore.set { numCounters, maxCost }).finalize
+
+end Stretto
